@@ -244,7 +244,13 @@ func buildState(nodes []*world.Node, name string) (*world.LW, stateInfo) {
 	vsched.Settle()
 	info.vs["p1"] = p1
 	switch name {
-	case "S1":
+	case "S1", "S3":
+		if name == "S3" {
+			// the node trusts the outside sealer M: the funds exemption applies, the signature rules do not change
+			if err := nodes[0].Book.AddTrustedNode(M.Addr); err != nil {
+				panic("c04: state setup trust: " + err.Error())
+			}
+		}
 		p2, err := w.Propose(ctx, 0, w.Tx("p2", R, B, 2, 0))
 		if err != nil {
 			panic("c04: state setup p2: " + err.Error())
@@ -318,6 +324,12 @@ func makeBases(info stateInfo) []*base {
 			seal(world.MakeTx(R, A.Addr, "c04 large data", bigData(), sp(0, 0), 105), tip, tip))
 		add("nontip-parents", "spice transfer R->B 2.0 sealed by M on a confirmed (non-tip) vertex, smaller weight",
 			seal(world.MakeTx(R, B.Addr, "c04 inner parents", nil, sp(2, 0), 106), inner, inner))
+	case "S3":
+		tip := info.vs["p2"]
+		add("transfer-trusted-sealer", "spice transfer R->A 1.0 sealed on the tip by the outside sealer M, whom the node trusts",
+			seal(world.MakeTx(R, A.Addr, "c04 transfer trusted", nil, sp(1, 0), 301), tip, tip))
+		add("contract-countersigned-trusted-sealer", "data transaction R->A countersigned by the receiver, sealed by the trusted sealer M",
+			seal(world.CounterSign(world.MakeTx(R, A.Addr, "c04 signed contract trusted", []byte("countersigned-contract-payload-3"), sp(0, 0), 302), A), tip, tip))
 	case "S2":
 		p1, m0 := info.vs["p1"], info.vs["m0"]
 		add("equal-parents", "spice transfer R->A 1.0 with left parent = right parent (one of two tips)",
@@ -1016,7 +1028,7 @@ func workerMain(shard, n int, only string) *wres {
 	// 1. states and bases (crafted once; rebuilt states must reproduce the same hashes)
 	states := map[string]stateInfo{}
 	var bases []*base
-	for _, sn := range []string{"S1", "S2"} {
+	for _, sn := range []string{"S1", "S2", "S3"} {
 		sn := sn
 		if e := run(func() {
 			_, info := buildState(nodes, sn)
